@@ -66,7 +66,7 @@ struct in_emit {
 #define EMIT_PROLOGUE(FN) \
     V_INPUT(FN, struct in_emit, in); \
     V_ENV(in.cfg); \
-    V_ASSUME(g_cfg.mtu == V_MTU_FIXED && !g_cfg.mtu_fail); \
+    V_ASSUME(g_cfg.mtu == V_MTU_FIXED && !g_cfg.mtu_fail); g_cfg.mtu = V_MTU_FIXED; g_cfg.mtu_fail = 0; \
     g_ctx = &v_ctx_obj; \
     V_ASSUME(in.mapper_known <= 1); \
     lltd_iface_state st; \
